@@ -949,10 +949,14 @@ def gen_py_project(seed, rename=None):
         if "re_" + n not in plans["mb.py"]["vars"]:
             plans["mb.py"]["imports"] = [{"form": "from", "module": "ma", "names": [(n, "re_" + n)], "binds": ["re_" + n], "kind": "from-import-alias(re-export)",
                                           "target": {"re_" + n: ("ma.py", n)}}]
-    if rng.random() < 0.5 and plans["pkg/inner.py"]["vars"]:
+    if rng.random() < 0.8 and plans["pkg/inner.py"]["vars"]:
         n = rng.choice(plans["pkg/inner.py"]["vars"])
         plans["pkg/sub/deep.py"]["imports"] = [{"form": "from", "module": "..inner", "names": [(n, "up_" + n)], "binds": ["up_" + n],
                                                 "kind": "relative-from-import-alias", "target": {"up_" + n: ("pkg/inner.py", n)}}]
+    if rng.random() < 0.5 and plans["pkg/sub/deep.py"]["vars"]:
+        n = rng.choice(plans["pkg/sub/deep.py"]["vars"])
+        plans["pkg/inner.py"]["imports"] = [{"form": "from", "module": ".sub.deep", "names": [(n, "down_" + n)], "binds": ["down_" + n],
+                                             "kind": "relative-from-import-alias(into-sub-package)", "target": {"down_" + n: ("pkg/sub/deep.py", n)}}]
     if rng.random() < 0.5 and plans["pkg/inner.py"]["funs"]:
         n = rng.choice(plans["pkg/inner.py"]["funs"])
         if n not in plans["pkg/__init__.py"]["funs"]:
@@ -961,6 +965,8 @@ def gen_py_project(seed, rename=None):
             if n in plans["pkg/__init__.py"]["vars"]:
                 plans["pkg/__init__.py"]["vars"].remove(n)
     for path in LIB_FILES:
+        if plans[path].get("imports") and not plans[path]["funs"] and path != "pkg/__init__.py":
+            plans[path]["funs"] = [rng.choice(LIB_FUNS)]        # somebody has to read what the module imports
         g.gen_lib(path, plans[path])
     public = {p: list(dict.fromkeys(m["files"][p]["public"])) for p in LIB_FILES}
     # ---- main.py
@@ -1137,13 +1143,19 @@ builtins.out = out
 status = "ok"
 try:
     runpy.run_path(os.path.join(root, "main.py"), run_name="main")
+    # harness side: every library function runs at least once, whether main imports it or not (the reads in its body are judged)
+    import importlib
+    for spec in json.loads(sys.argv[2]) if len(sys.argv) > 2 else []:
+        modn, fn = spec.split(":", 1)
+        if modn != "main" and "." not in fn:
+            getattr(importlib.import_module(modn), fn)("drv")
 except BaseException as e:
     status = "raise:" + type(e).__name__ + ":" + str(e)[:160]
 print(json.dumps({"status": status, "outputs": outs}))
 '''
 
 
-def run_py_project(files, workdir):
+def run_py_project(files, workdir, calls=()):
     import os
     import subprocess
     import sys
@@ -1157,7 +1169,7 @@ def run_py_project(files, workdir):
     with open(drv, "w") as f:
         f.write(PY_PROJECT_DRIVER)
     try:
-        p = subprocess.run([sys.executable, "-B", drv, root], capture_output=True, text=True, timeout=60,
+        p = subprocess.run([sys.executable, "-B", drv, root, json.dumps(sorted(calls))], capture_output=True, text=True, timeout=60,
                            env={"PATH": os.environ.get("PATH", ""), "PYTHONDONTWRITEBYTECODE": "1"})
         return json.loads(p.stdout.strip().splitlines()[-1])
     except Exception as e:
